@@ -1,22 +1,22 @@
 CONSTANTS
   Dev_AdoptClientSecurity = FALSE
   Dev_IgnoreSigFailure = FALSE
-  Dev_TokenKeyLimits = TRUE
+  Dev_TokenKeyLimits = FALSE
   Dev_StatusSkipsVerify = FALSE
   Dev_CloseOnce = FALSE
-  Dev_RecycledConfig = FALSE
+  Dev_RecycledConfig = TRUE
   Dev_AdvertiseExtra = FALSE
   Dev_DropPolicy = ""
   Dev_WrongTokenPolicy = FALSE
   SresSet = {"good", "goodsub", "uncertain", "bad"}
   MaxAttempts = 1
-  Histories = {"none"}
+  Histories = {"none", "secured"}
   ConfigSet = "one"
   Scripted = TRUE
-  Intents = {"endpoint", "raw"}
+  Intents = {"raw"}
   DiagKeys = FALSE
   Emit = "none"
 INIT Init
 NEXT Next
-INVARIANT InvInterop
+INVARIANT InvOnlyEnabled
 CHECK_DEADLOCK FALSE
